@@ -18,10 +18,44 @@ def _num(v):
     return float(v)
 
 
+_BV_OPS = {z3.Z3_OP_BADD: "add", z3.Z3_OP_BMUL: "mul", z3.Z3_OP_BSUB: "sub", z3.Z3_OP_BUDIV: "div",
+           z3.Z3_OP_BUDIV_I: "div", z3.Z3_OP_BUREM: "rem", z3.Z3_OP_BUREM_I: "rem", z3.Z3_OP_BV2INT: "toint",
+           z3.Z3_OP_ULEQ: "le", z3.Z3_OP_UGEQ: "ge", z3.Z3_OP_ULT: "lt", z3.Z3_OP_UGT: "gt"}
+
+
+def _bv_eval(kind, u, a):
+    op = _BV_OPS[kind]
+    if op == "toint":
+        return a[0]
+    if op in ("le", "ge", "lt", "gt"):
+        return {"le": a[0] <= a[1], "ge": a[0] >= a[1], "lt": a[0] < a[1], "gt": a[0] > a[1]}[op]
+    m = 1 << u.size()
+    if op == "add":
+        return sum(a) % m
+    if op == "mul":
+        v = 1
+        for x in a:
+            v = (v * x) % m
+        return v
+    if op == "sub":
+        return (a[0] - sum(a[1:])) % m
+    if op == "div":
+        return (a[0] // a[1]) if a[1] else m - 1
+    return (a[0] % a[1]) if a[1] else a[0]
+
+
+def _defs():
+    from . import ctx as _ctx
+    if _ctx.has_current():
+        return getattr(_ctx.current(), "_uf_defs", {})
+    return {}
+
+
 def eval_term(t, env, cache=None):
     """env: name -> float (or [num, den])."""
     if cache is None:
         cache = {}
+    cache.setdefault("_keep", []).append(t)   # ids are only unique while the terms are alive
     stack = [(t, False)]
     while stack:
         u, ready = stack.pop()
@@ -29,9 +63,15 @@ def eval_term(t, env, cache=None):
         if k in cache:
             continue
         if not ready:
-            if z3.is_rational_value(u) or z3.is_int_value(u):
+            if z3.is_int_value(u):        # IntNumRef has no as_fraction()
+                cache[k] = u.as_long()
+                continue
+            if z3.is_rational_value(u):
                 f = u.as_fraction()
                 cache[k] = f.numerator / f.denominator
+                continue
+            if z3.is_bv_value(u):
+                cache[k] = u.as_long()
                 continue
             if z3.is_true(u):
                 cache[k] = True
@@ -41,6 +81,10 @@ def eval_term(t, env, cache=None):
                 continue
             if z3.is_const(u) and u.decl().kind() == z3.Z3_OP_UNINTERPRETED:
                 nm = u.decl().name()
+                d = _defs().get(k)
+                if d is not None:      # definitional symbol (symx.axioms.as_term): evaluate its definition
+                    cache[k] = eval_scalar(d, env, cache)
+                    continue
                 if nm not in env:
                     raise EvalError("no value for symbol %s" % nm)
                 v = env[nm]
@@ -95,6 +139,15 @@ def eval_term(t, env, cache=None):
                 v = bool(a[0]) != bool(a[1])
             elif kind == z3.Z3_OP_TO_REAL:
                 v = float(a[0])
+            elif kind == z3.Z3_OP_TO_INT:
+                v = math.floor(a[0])
+            elif kind == z3.Z3_OP_IDIV:           # Euclidean division of integers (symx.zint)
+                q = math.floor(a[0] / abs(a[1]))
+                v = q if a[1] > 0 else -q
+            elif kind == z3.Z3_OP_MOD:
+                v = a[0] - abs(a[1]) * math.floor(a[0] / abs(a[1]))
+            elif kind in _BV_OPS:                 # unsigned bit-vector integers (symx.zint)
+                v = _bv_eval(kind, u, [int(x) for x in a])
             elif kind == z3.Z3_OP_UNINTERPRETED:
                 if name == "POW":
                     v = a[0] ** a[1]
